@@ -4,6 +4,7 @@ package drive
 
 import (
 	"fmt"
+	"reflect"
 	"time"
 
 	jd "github.com/josephburnett/jd/v2"
@@ -81,12 +82,47 @@ func (v *V2) Project(j jd.JsonNode) codec.Node {
 	if j == nil {
 		return codec.Node{K: "x", V: "?nil"}
 	}
+	if TooDeep(j) {
+		// a cyclic value would overflow the stack inside Json() - a fatal error no recover() can catch
+		panic("jd produced a cyclic (or absurdly deep) document")
+	}
 	txt := j.Json()
 	n, err := v.T.FromText(txt)
 	if err != nil {
 		return codec.Node{K: "x", V: "?unparsable:" + txt}
 	}
 	return n
+}
+
+// TooDeep reports whether a value nests deeper than any document of the universes can (the nodes of jd are
+// maps and slices of interfaces: walked with reflection, never through jd's own recursive methods).
+func TooDeep(j any) bool { return tooDeep(reflect.ValueOf(j), 0) }
+
+func tooDeep(x reflect.Value, depth int) bool {
+	if depth > 200 {
+		return true
+	}
+	switch x.Kind() {
+	case reflect.Interface, reflect.Pointer:
+		if x.IsNil() {
+			return false
+		}
+		return tooDeep(x.Elem(), depth+1)
+	case reflect.Map:
+		it := x.MapRange()
+		for it.Next() {
+			if tooDeep(it.Value(), depth+1) {
+				return true
+			}
+		}
+	case reflect.Slice, reflect.Array:
+		for i := 0; i < x.Len(); i++ {
+			if tooDeep(x.Index(i), depth+1) {
+				return true
+			}
+		}
+	}
+	return false
 }
 
 func (v *V2) ProjectList(l []jd.JsonNode) []codec.Node {
@@ -239,6 +275,36 @@ func (v *V2) Diff(a, b codec.Node, o codec.Opts, yaml bool) (jd.Diff, Res) {
 	return d, r
 }
 
+// DiffPatchSame is the statement of C01 on one set of live values: the diff of ja and jb is applied to the
+// very ja it was computed from (not to a fresh copy) and the result compared with the very jb.
+func (v *V2) DiffPatchSame(a, b codec.Node, o codec.Opts, yaml bool) (Res, Res) {
+	var eq Res
+	r := Guard(func() Res {
+		ja, err := v.Inject(a, yaml)
+		if err != nil {
+			return Res{St: "err", Msg: "inject a: " + err.Error()}
+		}
+		jb, err := v.Inject(b, yaml)
+		if err != nil {
+			return Res{St: "err", Msg: "inject b: " + err.Error()}
+		}
+		opts := v.Options(o)
+		d := ja.Diff(jb, opts...)
+		p, err := ja.Patch(d)
+		if err != nil {
+			return Res{St: "err", Msg: err.Error()}
+		}
+		n := v.Project(p)
+		e := p.Equals(jb, opts...)
+		eq = Res{St: "ok", Bool: &e}
+		return Res{St: "ok", Doc: &n}
+	})
+	if eq.St == "" {
+		eq = Res{St: "err", Msg: "no patched document"}
+	}
+	return r, eq
+}
+
 // Patch applies d to a fresh copy of c.
 func (v *V2) Patch(c codec.Node, d jd.Diff, yaml bool) (jd.JsonNode, Res) {
 	var out jd.JsonNode
@@ -251,8 +317,8 @@ func (v *V2) Patch(c codec.Node, d jd.Diff, yaml bool) (jd.JsonNode, Res) {
 		if err != nil {
 			return Res{St: "err", Msg: err.Error()}
 		}
-		out = p
 		n := v.Project(p)
+		out = p
 		return Res{St: "ok", Doc: &n}
 	})
 	return out, r
